@@ -1387,6 +1387,47 @@ def run(run):
                 run.count('model_vs_spec_disagree')
                 run.disagree(case, 'Spec run differs from Model run (refinement theorem instance fails)', None, 'model vs spec')
         oracle(run, req, outs, case, state)
+    probe_incoherent_schema(run)
+
+
+PROBE_QUALS = '''
+Qualifier Key : boolean = false, Scope(property, reference), Flavor(DisableOverride, ToSubclass);
+Qualifier Association : boolean = false, Scope(association), Flavor(DisableOverride, ToSubclass);
+'''
+
+
+def probe_incoherent_schema(run):
+    """directed probe outside the generated schemas: the association class is declared with an additional key property
+    in the second namespace (an incoherent schema, excluded by hypothesis SchemaCoherent of C10_refines_spec; Lean
+    witness C10_refines_spec_fails_for_incoherent_schema).  The copy of a multi-namespace association instance stored
+    there lacks that key property; modifying it must still answer with a CIM status."""
+    import pywbem
+    import pywbem_mock
+    c = pywbem_mock.FakedWBEMConnection(default_namespace='A')
+    c.add_namespace('B')
+    c.compile_mof_string(PROBE_QUALS + 'class P { [Key] string n; }; [Association] class L { [Key] P REF a; };',
+                         namespace='A')
+    c.compile_mof_string(PROBE_QUALS + 'class P { [Key] string n; }; '
+                         '[Association] class L { [Key] P REF a; [Key] string k; };', namespace='B')
+    outs = []
+    try:
+        pe = c.CreateInstance(pywbem.CIMInstance('P', {'n': 'x'}), namespace='B')
+        c.CreateInstance(pywbem.CIMInstance('L', {'a': pe}), namespace='A')
+        m = pywbem.CIMInstance('L', {'k': 'v'})
+        m.path = pywbem.CIMInstanceName('L', {'a': pe}, namespace='B')
+        try:
+            c.ModifyInstance(m)
+            outs.append({'ok': None})
+        except Exception as e:  # noqa
+            outs.append(common.exc_json(e))
+    except Exception as e:  # noqa
+        outs.append(dict(common.exc_json(e), setup=True))
+    out = outs[-1]
+    run.count('probe:incoherent_schema:%s' % (out.get('exc', 'ok') + str(out.get('code', ''))))
+    if 'exc' in out and out['exc'] != 'CIMError':
+        run.violate({'kind': 'undocumented_exception', 'op': 'modify', 'exc': out['exc'], 'input': 'incoherent_schema'},
+                    {'probe': 'incoherent_schema'}, out)
+    return out
 
 
 def search(run):
@@ -1425,6 +1466,11 @@ def _oracle_case(run, schema, ops):
 def replay(payload):
     case = payload['case']
     r = common.Run(PROP, 'quick', 0)
+    if case.get('probe') == 'incoherent_schema':
+        out = probe_incoherent_schema(r)
+        if r.violations:
+            return False, 'property C10 FAILS on the incoherent-schema probe: ' + json.dumps(r.violations[0]['sig'])
+        return True, 'property C10 holds on the incoherent-schema probe: ' + json.dumps(out)
     req, outs, state = _oracle_case(r, case['schema'], case['ops'])
     if r.violations:
         v = r.violations[0]
